@@ -106,7 +106,7 @@ def check(spec, stats=None):
         if rs.exc is not None:
             raise Violation("restart-from-callback-state", f"restart from the state of iteration {kk} raised {type(rs.exc).__name__}: {rs.exc}")
         if ref0.res["message"] == MSG_ITER and ref0.res["nit"] == kk:
-            check_next(ref0.res, ref1.res, rs.res, "after-crash")
+            check_next(ref0.res, ref1.res, rs.res, "after-crash", ref1, rs, stats)
         if stats is not None:
             mid_ls = off >= 1
             stats.case({"run": rspec, "crash": [i, off]}, kk >= 1 and mid_ls, ["kind=crash-restart", f"mid_linesearch={mid_ls}"],
